@@ -14,8 +14,8 @@ func init() {
 	register("C16", runC16, `Structural clauses of copy/compare faithfulness, decided statically in package sync.
 C16-a error discipline: in CopyFileSystem, copyDir, copyOneFile and handleSymlink the error of every call on the source, the destination, the opened files or io.* is tested (non-nil edge returns an error) or returned; the documented best-effort calls (Chtimes, deferred Close) are the only exceptions, keyed by callee name.
 C16-b every difference kind yields an error: in CompareFS the Stat error of the target, an IsDir mismatch, a Size mismatch, the result of the content comparison and a path missing from the seen set each control an error return; in compareFileContents a count mismatch and !bytes.Equal do.
-C16-c copyDir and both walks of CompareFS consult the same exclusion table.
-C16-d copyDir recurses into directories (after Mkdir) and copies regular files; copyOneFile writes the bytes it read (same SSA value) and treats a short write as an error.
+C16-c copyDir and both walks of CompareFS consult the same exclusion table (directly or through an in-package helper), index it by the entry's own name (Name() / path.Base) and nothing else, and the table is never used other than by exact lookup.
+C16-d copyDir recurses into directories (after Mkdir) and copies regular files; copyOneFile writes the bytes it read (same SSA value) and treats a short write as an error; from each Read of the chunk loop no success exit is reachable without writing the bytes it returned, except on an edge where the count is <= 0 (data delivered together with io.EOF is not dropped).
 Decides these clauses, not equality of trees at run time. Observation recorded: compareFileContents compares raw Read counts.`)
 }
 
@@ -24,6 +24,7 @@ func runC16(w *World, r *Report) {
 	c16Differences(w, r)
 	c16Exclusions(w, r)
 	c16CopyShape(w, r)
+	c16ReadLoop(w, r)
 	r.Floor("C16-a", r.countRule("C16-a"), 12)
 	r.Floor("C16-b", r.countRule("C16-b"), 7)
 	r.Floor("C16-c", r.countRule("C16-c"), 3)
@@ -207,27 +208,302 @@ func c16Exclusions(w *World, r *Report) {
 	if g == nil {
 		fatalf("C16-c: sync.excludedPaths not found")
 	}
-	uses := func(fn *ssa.Function) bool {
+	isTable := func(v ssa.Value) bool {
+		for _, rt := range w.prov(v, provOpts{}).Roots {
+			if rt.Kind == RGlobal && rt.Val == ssa.Value(g) {
+				return true
+			}
+		}
+		return false
+	}
+	// lookups of the table in fn or in the in-package helpers it calls (depth 2); a helper's key parameter is bound
+	// to the argument of this call.
+	type lookup struct {
+		lk  *ssa.Lookup
+		key ssa.Value
+	}
+	var lookupsIn func(fn *ssa.Function, bind map[*ssa.Parameter]ssa.Value, d int) []lookup
+	lookupsIn = func(fn *ssa.Function, bind map[*ssa.Parameter]ssa.Value, d int) []lookup {
+		var out []lookup
+		allInstrs(fn, func(ins ssa.Instruction) {
+			switch x := ins.(type) {
+			case *ssa.Lookup:
+				if isTable(x.X) {
+					key := stripConv(x.Index)
+					if p, ok := key.(*ssa.Parameter); ok && bind[p] != nil {
+						key = bind[p]
+					}
+					out = append(out, lookup{x, key})
+				}
+			case *ssa.Call:
+				h := x.Call.StaticCallee()
+				if h == nil || d >= 2 || !w.fnSet[h] || w.pkgOf(h) != w.pkgOf(fn) || h == fn || h.Blocks == nil {
+					return
+				}
+				b2 := map[*ssa.Parameter]ssa.Value{}
+				for k, a := range x.Call.Args {
+					if k < len(h.Params) {
+						a = stripConv(a)
+						if p, ok := a.(*ssa.Parameter); ok && bind[p] != nil {
+							a = bind[p]
+						}
+						b2[h.Params[k]] = a
+					}
+				}
+				out = append(out, lookupsIn(h, b2, d+1)...)
+			}
+		})
+		return out
+	}
+	// any use of the table by fn or its helpers (the form of the use is judged separately)
+	var usesTable func(fn *ssa.Function, d int) bool
+	usesTable = func(fn *ssa.Function, d int) bool {
 		found := false
 		allInstrs(fn, func(ins ssa.Instruction) {
-			if lk, ok := ins.(*ssa.Lookup); ok {
-				for _, rt := range w.prov(lk.X, provOpts{}).Roots {
-					if rt.Kind == RGlobal && rt.Val == ssa.Value(g) {
-						found = true
-					}
+			switch x := ins.(type) {
+			case *ssa.UnOp:
+				if x.Op == token.MUL && x.X == ssa.Value(g) {
+					found = true
+				}
+			case *ssa.Call:
+				if h := x.Call.StaticCallee(); h != nil && d < 2 && w.fnSet[h] && w.pkgOf(h) == w.pkgOf(fn) && h != fn && h.Blocks != nil && usesTable(h, d+1) {
+					found = true
 				}
 			}
 		})
 		return found
 	}
+	// the key is the entry's own name: the result of DirEntry.Name() / path.Base(p), nothing else
+	keyIsBaseName := func(key ssa.Value) bool {
+		p := w.prov(key, provOpts{})
+		if len(p.Roots) == 0 {
+			return false
+		}
+		for _, rt := range p.Roots {
+			nm := ""
+			if rt.Fn != nil {
+				nm = rt.Fn.Name()
+			} else if rt.Meth != nil {
+				nm = rt.Meth.Name()
+			}
+			if rt.Kind != RCall || (nm != "Name" && nm != "Base") {
+				return false
+			}
+		}
+		return true
+	}
+	check := func(fn *ssa.Function, owner *ssa.Function, what string, missing string) {
+		lks := lookupsIn(fn, map[*ssa.Parameter]ssa.Value{}, 0)
+		r.Check(len(lks) > 0 || usesTable(fn, 0), "C16-c", fnName(owner), what+" consults the exclusion table", w.relFile(fn.Pos()), "", missing)
+		for _, l := range lks {
+			r.Check(keyIsBaseName(l.key), "C16-c", fnName(owner), what+" matches exclusions on the entry's base name", w.relFile(l.lk.Pos()), "",
+				"the exclusion table is indexed by "+strings.Join(w.prov(l.key, provOpts{}).rootStrings(), ",")+" rather than by the entry's own name (Name() / path.Base): entries are skipped, or not skipped, differently from the copy")
+		}
+	}
 	cd := w.Func("sync", "copyDir")
-	r.Check(uses(cd), "C16-c", fnName(cd), "consults the exclusion table", w.relFile(cd.Pos()), "", "copyDir no longer consults excludedPaths")
+	check(cd, cd, "copyDir", "copyDir no longer consults excludedPaths")
 	cmp := w.Func("sync", "CompareFS")
 	for i, cl := range cmp.AnonFuncs {
-		r.Check(uses(cl), "C16-c", fnName(cmp), fmt.Sprintf("walk #%d consults the exclusion table", i+1), w.relFile(cl.Pos()), "", "a walk of CompareFS does not skip the names the copy skips: a faithful copy is reported different")
+		check(cl, cmp, fmt.Sprintf("walk #%d", i+1), "a walk of CompareFS does not skip the names the copy skips: a faithful copy is reported different")
 	}
 	if len(cmp.AnonFuncs) < 2 {
 		r.Fail("C16-c", fnName(cmp), "two walk callbacks", w.relFile(cmp.Pos()), "CompareFS does not have two walk callbacks")
+	}
+	// the table is only ever indexed: any other use of it (ranging over it to match prefixes, suffixes or substrings)
+	// excludes names the exact table does not list
+	for _, fn := range w.ModFns {
+		if w.pkgOf(fn) != "sync" || fn.Name() == "init" {
+			continue
+		}
+		allInstrs(fn, func(ins ssa.Instruction) {
+			ld, ok := ins.(*ssa.UnOp)
+			if !ok || ld.Op != token.MUL || ld.X != ssa.Value(g) {
+				return
+			}
+			for _, u := range *ld.Referrers() {
+				if lk, ok := u.(*ssa.Lookup); ok && lk.X == ssa.Value(ld) {
+					continue
+				}
+				r.Fail("C16-c", fnName(fn), "exclusion table is used only by exact lookup", w.relFile(u.Pos()),
+					"excludedPaths is used other than by indexing it with a name (e.g. ranged over for a prefix/suffix/substring match): names that merely resemble an excluded name are skipped by the copy and the comparison")
+			}
+		})
+	}
+	r.Ok("C16-c", "sync", "exclusion table is used only by exact lookup", "sync", "")
+}
+
+// c16ReadLoop: data delivered together with io.EOF is not dropped. From each Read(buf) of the copy, exploring the CFG
+// without entering a block that writes buf[..n] and without taking an edge on which n <= 0, no success exit is reachable.
+func c16ReadLoop(w *World, r *Report) {
+	cof := w.Func("sync", "copyOneFile")
+	fns := []*ssa.Function{cof}
+	seen := map[*ssa.Function]bool{cof: true}
+	for d := 0; d < 2; d++ {
+		for _, f := range append([]*ssa.Function{}, fns...) {
+			for _, c := range calls(f, false, func(c ssa.CallInstruction) bool { return true }) {
+				if h := c.Common().StaticCallee(); h != nil && w.fnSet[h] && w.pkgOf(h) == "sync" && !seen[h] && h.Blocks != nil {
+					seen[h] = true
+					fns = append(fns, h)
+				}
+			}
+		}
+	}
+	n := 0
+	for _, fn := range fns {
+		for _, rd := range calls(fn, false, func(c ssa.CallInstruction) bool { return methodCallSig(c, "Read", 1, 2) }) {
+			rdv, ok := rd.(*ssa.Call)
+			if !ok {
+				continue
+			}
+			n++
+			buf := argsOf(rd)[0]
+			var cnt ssa.Value
+			for _, u := range *rdv.Referrers() {
+				if ex, ok := u.(*ssa.Extract); ok && ex.Index == 0 {
+					cnt = ex
+				}
+			}
+			writeBlocks := map[*ssa.BasicBlock]bool{}
+			for _, wr := range calls(fn, false, func(c ssa.CallInstruction) bool { return methodCallSig(c, "Write", 1, 2) }) {
+				if sl, ok := argsOf(wr)[0].(*ssa.Slice); ok && sl.X == buf {
+					writeBlocks[wr.Block()] = true
+				}
+			}
+			construct := "bytes read together with EOF are written #" + ordinal(fn, rd)
+			if len(writeBlocks) == 0 || cnt == nil {
+				r.Fail("C16-d", fnName(fn), construct, w.relFile(rd.Pos()), "the buffer filled by this Read is never written to the destination (or its count is ignored)")
+				continue
+			}
+			afterWrite := func(b *ssa.BasicBlock) bool {
+				for wb := range writeBlocks {
+					if wb.Dominates(b) {
+						return true
+					}
+				}
+				return false
+			}
+			isCnt := func(v ssa.Value) bool { return stripConv(v) == cnt }
+			// a loop counter that is 0 until a write happened
+			zeroBeforeWrite := func(v ssa.Value) bool {
+				v = stripConv(v)
+				if c, ok := v.(*ssa.Const); ok {
+					k, isInt := constInt(c)
+					return isInt && k == 0
+				}
+				ph, ok := v.(*ssa.Phi)
+				if !ok {
+					return false
+				}
+				zero := false
+				for k, e := range ph.Edges {
+					if c, ok := e.(*ssa.Const); ok {
+						if x, isInt := constInt(c); isInt && x == 0 {
+							zero = true
+							continue
+						}
+					}
+					if !afterWrite(ph.Block().Preds[k]) {
+						return false
+					}
+				}
+				return zero
+			}
+			// refuse: edges on which the count is known to be <= 0
+			refuse := func(b *ssa.BasicBlock, idx int) bool {
+				iff, ok := lastInstr(b).(*ssa.If)
+				if !ok {
+					return false
+				}
+				cond, tIdx := boolCondEdge(iff)
+				bin, ok := cond.(*ssa.BinOp)
+				if !ok {
+					return false
+				}
+				onTrue := idx == tIdx
+				x, y := bin.X, bin.Y
+				op := bin.Op
+				if isCnt(y) && !isCnt(x) { // normalise to cnt OP other
+					x, y = y, x
+					switch op {
+					case token.LSS:
+						op = token.GTR
+					case token.GTR:
+						op = token.LSS
+					case token.LEQ:
+						op = token.GEQ
+					case token.GEQ:
+						op = token.LEQ
+					}
+				}
+				if !isCnt(x) {
+					return false
+				}
+				small := zeroBeforeWrite(y) // other side is 0 here
+				one := false
+				if c, ok := stripConv(y).(*ssa.Const); ok {
+					k, isInt := constInt(c)
+					one = isInt && k == 1
+				}
+				switch op {
+				case token.GTR: // n > 0: false edge means n <= 0
+					return small && !onTrue
+				case token.NEQ:
+					return small && !onTrue
+				case token.EQL:
+					return small && onTrue
+				case token.LEQ:
+					return small && onTrue
+				case token.LSS: // n < 1
+					return one && onTrue
+				case token.GEQ: // n >= 1
+					return one && !onTrue
+				}
+				return false
+			}
+			seenB := map[*ssa.BasicBlock]bool{}
+			var bad *ssa.Return
+			// the Read's own block: a write later in the same block counts
+			start := rd.Block()
+			stack := []*ssa.BasicBlock{}
+			if !writeBlocks[start] {
+				for i, sc := range start.Succs {
+					if !refuse(start, i) {
+						stack = append(stack, sc)
+					}
+				}
+			}
+			for len(stack) > 0 && bad == nil {
+				b := stack[len(stack)-1]
+				stack = stack[:len(stack)-1]
+				if seenB[b] || writeBlocks[b] || b == start {
+					continue
+				}
+				seenB[b] = true
+				if ret, ok := lastInstr(b).(*ssa.Return); ok && classifyReturn(ret) != RetError {
+					bad = ret
+					break
+				}
+				for i, sc := range b.Succs {
+					if !refuse(b, i) {
+						stack = append(stack, sc)
+					}
+				}
+			}
+			detail := ""
+			if bad != nil {
+				detail = "a success exit at " + w.relFile(bad.Pos()) + " is reachable from this Read without writing the bytes it returned: a final chunk delivered together with io.EOF (as every go-diskfs File.Read does) is dropped and the copy still succeeds"
+			}
+			r.Check(bad == nil, "C16-d", fnName(fn), construct, w.relFile(rd.Pos()), "", detail)
+		}
+	}
+	if n == 0 {
+		usesCopy := false
+		for _, fn := range fns {
+			if len(calls(fn, false, func(c ssa.CallInstruction) bool { return isStdCall(c, "io.Copy") || isStdCall(c, "io.CopyBuffer") || isStdCall(c, "io.CopyN") })) > 0 {
+				usesCopy = true
+			}
+		}
+		r.Check(usesCopy, "C16-d", fnName(cof), "bytes read together with EOF are written", w.relFile(cof.Pos()), "streams with io.Copy", "copyOneFile has neither a Read loop nor io.Copy for large files")
 	}
 }
 
